@@ -36,11 +36,17 @@ package p9p
 //@ axiom [wire] wireSize_Tread: forall f Fcall :: {wireSize(f)} typeis(f.Message, MessageTread) ==> wireSize(f) == 19
 //@ axiom [wire] wireSize_Rread: forall f Fcall :: {wireSize(f)} typeis(f.Message, MessageRread) && len(f.Message.(MessageRread).Data) < 4294967296 - 7 ==> wireSize(f) == 7 + len(f.Message.(MessageRread).Data)
 
+//@ pure kindOf(m Message) FcallType
+//@ iface Message.Type
+//@ modifies nothing
+//@ ensures result == kindOf(self)
+
 //@ pure encFcall(f Fcall) Bytes
 //@ pure decOk(b Bytes) bool
 //@ pure decFcall(b Bytes) Fcall
 //@ axiom [wire] enc_len: forall f Fcall :: {encFcall(f)} blen(encFcall(f)) == wireSize(f)
 //@ axiom [wire] dec_size: forall b Bytes :: {decFcall(b)} decOk(b) ==> wireSize(decFcall(b)) <= blen(b)
+//@ axiom [wire] dec_twrite: forall b Bytes :: {decFcall(b)} decOk(b) && typeis(decFcall(b).Message, MessageTwrite) ==> 19 + len(decFcall(b).Message.(MessageTwrite).Data) <= blen(b)
 
 //@ iface Codec.Size
 //@ params v
@@ -55,12 +61,14 @@ package p9p
 //@ modifies alloc, E:uint8
 //@ ensures preserved("E:uint8")
 //@ ensures typeis(v, *Fcall) && err == nil ==> bytes(result0) == encFcall(*v.(*Fcall)) && len(result0) == wireSize(*v.(*Fcall))
+//@ ensures !typeis(err, overflowErr)
 
 //@ iface Codec.Unmarshal
 //@ params data v
 //@ use wire bytes
 //@ modifies alloc, E:uint8, E:string, E:p9p.Qid, p9p.Fcall.Type, p9p.Fcall.Tag, p9p.Fcall.Message
 //@ ensures preserved("E:uint8")
+//@ ensures !typeis(err, overflowErr)
 //@ ensures typeis(v, *Fcall) ==> (err == nil <==> decOk(bytes(data)))
 //@ ensures typeis(v, *Fcall) && err == nil ==> *v.(*Fcall) == decFcall(bytes(data))
 //@ ensures typeis(v, *Fcall) ==> forall q *Fcall :: q != v.(*Fcall) ==> q.Type == old(q.Type) && q.Tag == old(q.Tag) && q.Message == old(q.Message)
@@ -94,7 +102,7 @@ package p9p
 //@ requires wr != nil && len(p) + 4 < 4294967296
 //@ ensures frame: unchanged("E:uint8")
 //@ ensures one_frame: err == nil ==> out(wr) == bcat(old(out(wr)), bcat(le4(len(p) + 4), bytes(p)))
-//@ ensures failure_is_io: err != nil ==> iofailed() || tag(err) > 100000
+//@ ensures failure_is_io: err != nil ==> iofailed() && tag(err) > 100000
 
 //@ func (*channel).WriteFcall
 //@ property C02 C10
@@ -103,10 +111,10 @@ package p9p
 //@ let S0 = (4 + old(wireSize(*fcall)))
 //@ let D0 = old(fcall.Message.(MessageTwrite).Data)
 //@ let D1 = fcall.Message.(MessageTwrite).Data
-//@ requires ch != nil && ch.codec != nil && ch.conn != nil && ch.bwr != nil && fcall != nil && 0 <= ch.msize && ch.msize < 2147483648
+//@ requires ctx != nil && ch != nil && ch.codec != nil && ch.conn != nil && ch.bwr != nil && fcall != nil && 0 <= ch.msize && ch.msize < 2147483648
 //@ requires typeis(fcall.Message, MessageTwrite) ==> len(fcall.Message.(MessageTwrite).Data) < 4294967296 - 23
 //@ ensures caller_buffer: preserved("E:uint8") && ch.msize == old(ch.msize)
-//@ ensures one_frame: err == nil ==> out(ch.bwr) == bcat(old(out(ch.bwr)), bcat(le4(4 + wireSize(*fcall)), encFcall(*fcall))) && 4 + wireSize(*fcall) <= ch.msize
+//@ ensures one_frame: err == nil ==> out(ch.bwr) == bcat(old(out(ch.bwr)), bcat(le4(4 + wireSize(*fcall)), encFcall(*fcall))) && (4 + wireSize(*fcall) <= ch.msize || (typeis(M0, MessageTread) && ch.msize < 23))
 //@ ensures nothing_on_error: err != nil && !iofailed() ==> out(ch.bwr) == old(out(ch.bwr))
 //@ ensures cancelled: old(cancelled(ctx)) ==> err != nil && out(ch.bwr) == old(out(ch.bwr))
 //@ ensures overflow: typeis(err, overflowErr) ==> err.(overflowErr).size == S0 - ch.msize && S0 > ch.msize && fcall.Message == M0 && !(typeis(M0, MessageTwrite) && ch.msize >= 23) && !typeis(M0, MessageTread)
@@ -124,7 +132,8 @@ package p9p
 //@ ensures short_header: blen(R) < 4 ==> err != nil
 //@ ensures bad_length: blen(R) >= 4 && size < 4 ==> err != nil
 //@ ensures ok: err == nil ==> blen(R) >= size && size >= 4 && n == size && rem(rd) == bdrop(R, size) && bytes(p[0:k]) == btake(bdrop(R, 4), k)
-//@ ensures failure_is_io: err != nil ==> iofailed() || tag(err) > 100000 || size < 4
+//@ ensures failure_is_io: err != nil ==> iofailed() || (blen(R) >= 4 && size < 4)
+//@ ensures err_kind: err != nil ==> tag(err) > 100000
 
 //@ func (*channel).SetMSize
 //@ property C10 C03
@@ -141,14 +150,14 @@ package p9p
 //@ property C03 C10
 //@ use wire bytes
 //@ let R = old(rem(ch.brd))
-//@ let size = dec4(btake(R, 4))
-//@ let B = btake(bdrop(R, 4), size - 4)
-//@ requires ch != nil && ch.codec != nil && ch.conn != nil && ch.brd != nil && fcall != nil && 24 <= ch.msize && ch.msize < 2147483648 && len(ch.rdbuf) == ch.msize
+//@ let SZ = dec4(btake(R, 4))
+//@ let B = btake(bdrop(R, 4), SZ - 4)
+//@ requires ctx != nil && ch != nil && ch.codec != nil && ch.conn != nil && ch.brd != nil && fcall != nil && 24 <= ch.msize && ch.msize < 2147483648 && len(ch.rdbuf) == ch.msize
 //@ ensures inv: ch.msize == old(ch.msize) && len(ch.rdbuf) == ch.msize
-//@ ensures overflow: typeis(err, overflowErr) ==> blen(R) >= size && size > ch.msize && err.(overflowErr).size == size - ch.msize && rem(ch.brd) == bdrop(R, size)
-//@ ensures consumed: err == nil ==> blen(R) >= size && 4 <= size && size <= ch.msize && rem(ch.brd) == bdrop(R, size)
+//@ ensures overflow: typeis(err, overflowErr) ==> blen(R) >= SZ && SZ > ch.msize && err.(overflowErr).size == SZ - ch.msize && rem(ch.brd) == bdrop(R, SZ)
+//@ ensures consumed: err == nil ==> blen(R) >= SZ && 4 <= SZ && SZ <= ch.msize && rem(ch.brd) == bdrop(R, SZ)
 //@ ensures isolated: err == nil ==> decOk(B) && fcall.Type == decFcall(B).Type && fcall.Tag == decFcall(B).Tag && (!typeis(decFcall(B).Message, MessageTread) ==> fcall.Message == decFcall(B).Message)
 //@ ensures tread_clamp: err == nil && typeis(decFcall(B).Message, MessageTread) ==> typeis(fcall.Message, MessageTread) && fcall.Message.(MessageTread).Count == min(decFcall(B).Message.(MessageTread).Count, ch.msize - 11) && fcall.Message.(MessageTread).Fid == decFcall(B).Message.(MessageTread).Fid && fcall.Message.(MessageTread).Offset == decFcall(B).Message.(MessageTread).Offset
-//@ ensures delivered: !old(cancelled(ctx)) && !old(closedch(ch.closed)) && blen(R) >= size && 4 <= size && size <= ch.msize && decOk(B) && !iofailed() ==> err == nil
-//@ ensures undecodable: blen(R) >= size && 4 <= size && size <= ch.msize && !decOk(B) ==> err != nil && (!iofailed() ==> rem(ch.brd) == bdrop(R, size))
-//@ ensures bad_length: blen(R) >= 4 && size < 4 ==> err != nil
+//@ ensures delivered: !old(cancelled(ctx)) && !old(closedch(ch.closed)) && blen(R) >= SZ && 4 <= SZ && SZ <= ch.msize && decOk(B) && !iofailed() ==> err == nil
+//@ ensures undecodable: !old(cancelled(ctx)) && !old(closedch(ch.closed)) && blen(R) >= SZ && 4 <= SZ && SZ <= ch.msize && !decOk(B) ==> err != nil && (!iofailed() ==> rem(ch.brd) == bdrop(R, SZ))
+//@ ensures bad_length: blen(R) >= 4 && SZ < 4 ==> err != nil
